@@ -201,4 +201,60 @@ theorem altered_body_differs (cert cert' : Bytes) (t t2 i : Nat) (hi : t ≤ i) 
   rw [← e1, ← e2, h]
 example : ([1, 2, 3, 4, 5] : Bytes)[2]? ≠ ([1, 2, 9, 4, 5] : Bytes)[2]? := by decide
 
+/-
+FULL STATEMENT (not proved): for every content `c` that passes btokCVCCheck and every admissible private key,
+  cvcWrap S c priv = (.ok, c', cert) → cvcUnwrap S cert (.key pub) = .ok c'    (pub = the key matching priv),
+for every `Sig` satisfying `SigLaws`.  Proved below: the acceptance half of it relative to the DER layer — IF the
+certificate decodes (outer SEQ start/stop, btokCVCBodyDec, the signature OCTET STRING, nothing left over) to the content
+`c'` and the body octets `body`, `c'.sig` is what btokSign produced over `body` with a private key matching `pub`, and `c'`
+passes btokCVCCheck, THEN btokCVCUnwrap under `pub` returns exactly `c'`: the signature length derived from the
+verification key is the one written for every key length (34/48/72/96), Verify is applied to the octets that were signed
+(completeness of the signature layer), and the final check sees the same content.  Missing for the full statement: that
+btokCVCWrap's output does decode like this (bodyDec ∘ bodyEnc and the outer SEQ: DER round trips through the SEQ anchors),
+covered by the correspondence run only.
+-/
+theorem cvcUnwrap_accepts_signed_partial (S : Sig) (L : SigLaws S) (c' : Cvc) (body cert priv pub : Bytes)
+    (hpl : privLenOk priv.length = true) (hkp : S.keypairVal priv pub = .ok)
+    (hsign : S.sign body priv = (.ok, c'.sig)) (hcheck : cvcCheck S c' = .ok)
+    (a : Bee2V.C08.Anchor) (t t3 : Nat)
+    (h1 : Bee2V.C08.derTSEQDecStart cert 0x7F21 = .ok (a, t))
+    (h2 : bodyDec (cert.drop t) = .ok ({ c' with sig := [] }, body.length))
+    (h3 : (cert.drop t).take body.length = body)
+    (h4 : Bee2V.C08.derTOCTDec2 (cert.drop (t + body.length)) 0x5F37 c'.sig.length = .ok (c'.sig, t3))
+    (h5 : Bee2V.C08.derTSEQDecStop (t + body.length + t3) a = .ok ())
+    (h6 : cert.length = t + body.length + t3) :
+    cvcUnwrap S cert (.key pub) = .ok c' := by
+  have hsl := L.sign_len body priv c'.sig hsign
+  have hv := L.sign_verify body priv pub c'.sig hpl hkp hsign
+  obtain ⟨_, hpublen⟩ := L.keypair_pub priv pub hkp
+  have hpriv : priv.length = 24 ∨ priv.length = 32 ∨ priv.length = 48 ∨ priv.length = 64 := by
+    have := hpl; simp only [privLenOk, privLens_eq] at this; simpa using this
+  have hpubok : pubkeyLenOk pub.length = true := by
+    simp only [pubkeyLenOk, pubLens_eq]; rcases hpriv with h | h | h | h <;> simp [hpublen, h]
+  have hsiglen : (if pub.length = 48 then 34 else pub.length - pub.length / 4) = c'.sig.length := by
+    rw [hsl, hpublen]; unfold sigLenOfPriv; rcases hpriv with h | h | h | h <;> simp [h]
+  unfold cvcUnwrap
+  simp only [hpubok, Bool.not_true, Bool.false_eq_true, if_false]
+  unfold cvcUnwrap.go
+  simp only [h1, ofR, h2, sigLenOf, hsiglen, h4, h3, hv, ne_eq, not_true_eq_false, if_false, h5, h6, Nat.sub_self, hcheck]
+
+/-! ### non-vacuity: the laws of the signature layer are satisfiable -/
+
+/-- a toy signature layer: the public key is the private key twice, every signature is `sigLen` zero octets and verifies -/
+def toySig : Sig :=
+  ⟨fun priv => (.ok, priv ++ priv), fun _ => .ok, fun priv pub => if pub = priv ++ priv then .ok else .badKeypair,
+   fun _ priv => (.ok, List.replicate (sigLenOfPriv priv.length) 0), fun _ _ _ => .ok⟩
+
+example : SigLaws toySig where
+  calc_len := by intro priv pub h; simp only [toySig, Prod.mk.injEq, true_and] at h; rw [← h]; simp; omega
+  calc_keypair := by intro priv pub h; simp only [toySig, Prod.mk.injEq, true_and] at h; simp [toySig, h]
+  keypair_pub := by
+    intro priv pub h
+    simp only [toySig] at h ⊢
+    by_cases hp : pub = priv ++ priv
+    · subst hp; simp; omega
+    · simp [hp] at h
+  sign_len := by intro body priv sig h; simp only [toySig, Prod.mk.injEq, true_and] at h; rw [← h]; simp
+  sign_verify := by intros; rfl
+
 end Bee2V.C17
